@@ -190,6 +190,12 @@ class Atomizer:
             return f_not(("atom", f"{b} <= {a}"))
         if isinstance(op, ast.Gt):
             return f_not(("atom", f"{a} <= {b}"))
+        if isinstance(op, (ast.In, ast.NotIn)):
+            # membership in a short literal tuple / list / set is the disjunction of the equalities
+            cont = self.inline(right)
+            if isinstance(cont, (ast.Tuple, ast.List, ast.Set)) and 1 <= len(cont.elts) <= 6 and not any(isinstance(x, ast.Starred) for x in cont.elts):
+                f = f_or(*[self.compare(left, ast.Eq(), x) for x in cont.elts])
+                return f if isinstance(op, ast.In) else f_not(f)
         if isinstance(op, ast.In):
             return ("atom", f"{a} in {b}")
         if isinstance(op, ast.NotIn):
